@@ -25,6 +25,11 @@ InteriorPts == <<Pad(<<1>>), Pad(<<3, 2, 2>>), Pad(<<2, 1>>), Pad(<<5, 0 - 3, 1>
 \* points s u + (1 - s) v on the chord between ideal points u and v (s = p/q written homogeneously)
 OnChord(u, v, p, q) == Prim(VAdd(VScale(p, u), VScale(q - p, v)))
 
+\* points OUTSIDE the closed ball (poles of hyperplanes); the first three have time coordinate exactly 0 (poles of
+\* hyperplanes through the origin) and stay there under every isometry fixing the origin
+ExteriorPts == <<Pad(<<0, 1>>), Pad(<<0, 1, 2>>), Pad(<<0, 3, 0 - 4>>), Pad(<<1, 2>>), Pad(<<1, 1, 1>>), Pad(<<2, 0, 3>>),
+                 Pad(<<0, 0, 1>>)>>
+
 Objects ==
   {[cls |-> "point", rows |-> <<x>>] : x \in {InteriorPts[i] : i \in 1..Len(InteriorPts)} \cup {IdealPts[1], IdealPts[2]}}
   \cup {[cls |-> "pair", rows |-> <<InteriorPts[2], InteriorPts[4]>>], [cls |-> "pair", rows |-> <<InteriorPts[3], IdealPts[2]>>],
@@ -49,6 +54,15 @@ Objects ==
   \cup {[cls |-> "subspace", rows |-> <<IdealPts[1], IdealPts[3]>>]}
   \cup {[cls |-> "isometry", rows |-> <<>>, h |-> AtomVal(h)] :
           h \in {[k |-> "lox", p |-> 3, q |-> 2], [k |-> "refl", v |-> Pad(<<1, 2>>)], [k |-> "rot", a |-> 5, b |-> 12, c |-> 13]}}
+
+\* the other kinds of points of the projective model (kept apart from Objects, which Rescale.tla / C12 reuses):
+\* poles of hyperplanes (hyperbolic.DualPoint), ideal points (hyperbolic.IdealPoint), points of the ambient
+\* projective space (projective.Point) moved by an isometry, and pairs containing poles
+PointObjects ==
+  {[cls |-> "dualpoint", rows |-> <<ExteriorPts[i]>>] : i \in 1..Len(ExteriorPts)}
+  \cup {[cls |-> "idealpoint", rows |-> <<IdealPts[i]>>] : i \in {3, 4, 5}}
+  \cup {[cls |-> "ppoint", rows |-> <<x>>] : x \in {InteriorPts[4], IdealPts[2], ExteriorPts[1], ExteriorPts[3], ExteriorPts[5]}}
+  \cup {[cls |-> "pair", rows |-> <<InteriorPts[5], ExteriorPts[1]>>], [cls |-> "pair", rows |-> <<ExteriorPts[2], ExteriorPts[4]>>]}
 
 \* the action, defined from the geometry
 ActObj(a, X) ==
@@ -75,6 +89,8 @@ WellFormed(X) ==
     [] X.cls = "geodesic" -> \A i \in 1..2 : MNorm(X.rows[i]) = 0
     [] X.cls = "horosphere" -> MNorm(X.rows[1]) = 0 /\ MNorm(X.rows[2]) < 0
     [] X.cls = "hyperplane" -> MNorm(X.rows[1]) > 0
+    [] X.cls = "dualpoint" -> MNorm(X.rows[1]) > 0
+    [] X.cls = "idealpoint" -> MNorm(X.rows[1]) = 0
     [] X.cls = "subspace" -> \A i \in 1..Len(X.rows) : MNorm(X.rows[i]) = 0
     [] OTHER -> TRUE
 
@@ -85,7 +101,7 @@ Elems == Atoms1 \cup {Mul(AtomVal([k |-> "lox", p |-> 2, q |-> 1]), AtomVal([k |
                       Boost(Pad(<<3, 2, 2>>)), Mul(Boost(Pad(<<9, 4, 8>>)), AtomVal([k |-> "rot", a |-> 5, b |-> 12, c |-> 13]))}
 
 ActInit == /\ Init
-           /\ obj \in Objects
+           /\ obj \in Objects \cup PointObjects
            /\ A \in Elems /\ B \in Elems
 ActNext == UNCHANGED <<g, kind, len, last, obj, A, B>>
 
